@@ -1008,7 +1008,7 @@ fn random_strategy(with_abort: bool) -> BoxedStrategy<SchedCase> {
 pub const META_C10: Meta = Meta {
     id: "C10",
     level: "exploration",
-    rule: "Schedule enumeration on the real chunker code through hook H1: producer programs of up to 4 operations (thorough 5, and all 6-operation programs; thorough also chunk size 3 with writes of 1, 2, 4 and 7 bytes) over {write(1), write(2), flush, wait-until-delivered} + drop (random programs also write_all of up to 300 bytes, i.e. hundreds of chunks), chunk size 2 (identity) and of up to 3 operations with the gzip writer (chunk size 6; every operation is several chunker writes), against a consumer that parks on Pending, with same/fresh waker per poll (wakes to superseded wakers are ignored), 0 or 2 spurious polls, with/without is_end_stream/size_hint sampling; every schedule with <= 2 preemptions (thorough 3) is executed by stateless DFS (two real threads, exactly one runs, hand-over at lock acquisitions, wake() and operation boundaries); plus proptest over programs of <= 6 operations, chunk sizes {1,2,3,5,8}, writes of 1-17 bytes and random choice vectors (unbounded preemptions). Oracle (history invariants): no quiescent state with the consumer parked and un-woken while data, end or abort is undelivered; everything flushed is received in order before a clean end; bounded polls after the writer is gone. Non-trivial = schedule in which the consumer parked at least once or an actor was preempted; distinct by (program, config, choice vector).",
+    rule: "Schedule enumeration on the real chunker code through hook H1: producer programs of up to 4 operations (thorough 5, and all 6-operation programs; thorough also chunk size 3 with writes of 1, 2, 4 and 7 bytes) over {write(1), write(2), flush, wait-until-delivered} + drop (random programs also write_all of up to 300 bytes, i.e. hundreds of chunks), chunk size 2 (identity) and of up to 3 operations with the gzip writer (chunk size 6; every operation is several chunker writes), against a consumer that parks on Pending, with same/fresh waker per poll (wakes to superseded wakers are ignored), 0 or 2 spurious polls, with/without is_end_stream/size_hint sampling; every schedule with <= 2 preemptions (thorough 3) is executed by stateless DFS (two real threads, exactly one runs, hand-over at lock acquisitions, wake() and operation boundaries); plus proptest over programs of <= 6 operations, chunk sizes {1,2,3,5,8}, writes of 1-17 bytes and random choice vectors (unbounded preemptions). Also programs that queue 1 MiB and more before the consumer's first poll (chunk 16-64 KiB). Oracle (history invariants): no quiescent state with the consumer parked and un-woken while data, end or abort is undelivered; everything flushed is received in order before a clean end; bounded polls after the writer is gone. Non-trivial = schedule in which the consumer parked at least once or an actor was preempted; distinct by (program, config, choice vector).",
     assumptions: &[
         "interleavings are at lock / wake / operation granularity: complete for this code because every shared field sits behind the one instrumented mutex",
         "no weak-memory effects (all sharing goes through std::sync::Mutex)",
@@ -1081,6 +1081,36 @@ fn run_common(cx: &Cx, c11: bool) -> Acc {
         }
     }
     acc.merge(a);
+    if !c11 {
+        // A large unread backlog (1 MiB and more queued before the consumer's first poll), then small
+        // flushed and unflushed writes and the drop: all schedules with at most one preemption.
+        let mut units: Vec<SchedCase> = Vec::new();
+        for (chunk, backlog) in [(65_536usize, 1u32 << 20), (65_536, (1 << 20) + 65_537), (16_384, (1 << 20) + 5)] {
+            for program in [
+                vec![POp::WriteAll(backlog), POp::Write(1), POp::Flush, POp::Write(1)],
+                vec![POp::WriteAll(backlog), POp::Write(1), POp::Flush],
+                vec![POp::WriteAll(backlog), POp::Flush, POp::Write(3)],
+                vec![POp::WriteAll(backlog), POp::Write(2), POp::Flush, POp::Write(2), POp::Flush, POp::Write(1)],
+            ] {
+                for fresh_waker in [false, true] {
+                    units.push(SchedCase {
+                        gzip: None,
+                        chunk,
+                        program: program.clone(),
+                        cfg: CCfg { fresh_waker, spurious: 0, sample: false, extra_polls: 1, drop_after_polls: None },
+                        choices: vec![],
+                    });
+                }
+            }
+        }
+        let mut a = par_units(cx, "sched-backlog", &units, false, "1 MiB and more written before the consumer's first poll (chunk 16-64 KiB), then small writes, flushes and the drop; all schedules with <= 1 preemption (capped)", |cx, base, acc| {
+            explore(cx, "sched-backlog", base, 1, 400, acc, false);
+        });
+        if let Some(p) = a.phases.last_mut() {
+            p["exhaustive"] = json!(false);
+        }
+        acc.merge(a);
+    }
     if cx.tier == Tier::Thorough && !c11 {
         // The statement's bound: programs of 6 operations (preemption bound 2), and a second chunk
         // size with writes below, at and above it (programs of <= 4 operations).
